@@ -679,8 +679,8 @@ func runURR(prop, tier, bound string, assume ...string) {
 	smp := &evid.Samples{N: 10}
 	var total seqx.Stats
 	spec := urrSpec(prop)(tier, "urr")
-	st := seqx.Explore(run, spec, tier, smp)
-	seqx.Merge(run, "urr", st, &total)
+	// both map iteration orders; quick: C12 only (C11 quick already runs into its deadline with one order)
+	st := seqx.ExploreOrders(run, spec, tier, smp, &total, tier == "thorough" || prop == "C12")
 	seqx.Finish(run, total, smp, fmt.Sprintf(bound, spec.MaxDepth, st.DepthDone))
 	for _, a := range assume {
 		run.Assumption(a)
